@@ -651,12 +651,15 @@ impl BuiltInFunction {
                     s
                 };
 
-                if let Ok(num) = i32::from_str_radix(
-                    s,
-                    (*radix)
-                        .try_into()
-                        .with_context(|| format!("`{radix}` is an invalid radix"))?,
-                ) {
+                let radix: u32 = (*radix)
+                    .try_into()
+                    .with_context(|| format!("`{radix}` is an invalid radix"))?;
+
+                if !(2..=36).contains(&radix) {
+                    bail!("`{radix}` is an invalid radix (valid: 2 through 36)")
+                }
+
+                if let Ok(num) = i32::from_str_radix(s, radix) {
                     Ok((
                         Some(Primitive::Int(num)),
                         None,
@@ -680,12 +683,15 @@ impl BuiltInFunction {
                     s
                 };
 
-                if let Ok(num) = i128::from_str_radix(
-                    s,
-                    (*radix)
-                        .try_into()
-                        .with_context(|| format!("`{radix}` is an invalid radix"))?,
-                ) {
+                let radix: u32 = (*radix)
+                    .try_into()
+                    .with_context(|| format!("`{radix}` is an invalid radix"))?;
+
+                if !(2..=36).contains(&radix) {
+                    bail!("`{radix}` is an invalid radix (valid: 2 through 36)")
+                }
+
+                if let Ok(num) = i128::from_str_radix(s, radix) {
                     Ok((
                         Some(Primitive::BigInt(num)),
                         None,
